@@ -34,8 +34,9 @@ SHAPES = {
 }
 SCRIPT_B = ('on "B" off "B"', 2)
 SCRIPT_C = ('on "C" off "C" on "C"', 3)
+SCRIPT_D = ('repeat begin on "D" time 1 off "D" end', -1)       # runs in the background until it is stopped by name
 POP = [{'name': n, 'group': 'G', 'location': 'L', 'kind': 'plain', 'zones': 0, 'h': 0, 'w': 0, 'colour': [0, 0, 0, 0], 'power': 0}
-       for n in ('A', 'B', 'C')]
+       for n in ('A', 'B', 'C', 'D')]
 
 
 class NoteRecorder(simlan.Recorder):
@@ -166,7 +167,19 @@ def scenario(policy, shape, kind, inject_at=None, line_level=True, requester=Tru
         full = {1: full_a, 2: SCRIPT_B[1]}
         nruns = [2]
 
+        job_d = TJob('D')
+        job_d.load_string(SCRIPT_D[0])
+
         def client():
+            if kind == 'bgjob':
+                # a background script next to the queued ones: stop/<its name> is for it, whatever else is running
+                full[4] = SCRIPT_D[1]
+                nruns[0] = 4
+                job_d.pending_runs.append(4)
+                events.append({'e': 'queued', 'r': 4})
+                names[4] = 'd'
+                control.spawn_job(job_d, 'd')
+                events.append({'e': 'added', 'r': 4})
             queue(job_a, 1, 'a')
             queue(job_b, 2, 'b')
 
@@ -183,8 +196,10 @@ def scenario(policy, shape, kind, inject_at=None, line_level=True, requester=Tru
 
         def stopper():
             sched.block(gate)
-            events.append({'e': 'stop_call', 'k': kind, 'name': 'a', 'cur': current_run()})
-            if kind == 'job':
+            events.append({'e': 'stop_call', 'k': 'job' if kind == 'bgjob' else kind, 'name': 'd' if kind == 'bgjob' else 'a', 'cur': current_run()})
+            if kind == 'bgjob':
+                app.stop_script('d') if app is not None else control.stop_job('d')
+            elif kind == 'job':
                 app.stop_script('a') if app is not None else control.stop_job('a')
             elif kind == 'current':
                 app.stop_current() if app is not None else control.stop_current()
@@ -194,7 +209,7 @@ def scenario(policy, shape, kind, inject_at=None, line_level=True, requester=Tru
                 control.clear_queue()
                 control.stop_current()
                 control.stop_background()
-            events.append({'e': 'stop_ret', 'k': kind, 'cur': current_run()})
+            events.append({'e': 'stop_ret', 'k': 'job' if kind == 'bgjob' else kind, 'cur': current_run()})
             state['stop_step'], state['stop_time'] = sched.steps, sched.vtime
             sched.priority = None
             # afterwards: the same script again when it ends by itself, else another one
@@ -204,7 +219,7 @@ def scenario(policy, shape, kind, inject_at=None, line_level=True, requester=Tru
             else:
                 full[3] = SCRIPT_C[1]
                 queue(job_c, 3, 'c')
-            nruns[0] = 3
+            nruns[0] = max(nruns[0], 3)
 
         sched.spawn(client, name='client')
         if requester:
@@ -232,7 +247,7 @@ def scenario(policy, shape, kind, inject_at=None, line_level=True, requester=Tru
         world.close()
     sched.events = events
     sched.meta = {'full': [full.get(r, 0) for r in range(1, nruns[0] + 1)], 'nruns': nruns[0],
-                  'names': [names.get(r, '') for r in range(1, nruns[0] + 1)],
+                  'names': [names.get(r, '') for r in range(1, nruns[0] + 1)], 'bg': [r == 4 for r in range(1, nruns[0] + 1)],
                   'a_started_step': next((i for i, e in enumerate(events) if e['e'] == 'started' and e['r'] == 1), None),
                   'end_steps': dict(state.get('end_steps', {}))}
     return sched
@@ -287,7 +302,7 @@ def run(report, replay=None):
     walks = 120 if tier == 'thorough' else 14
     tasks = []
     for shape in SHAPES:
-        for kind in ('job', 'current', 'all'):
+        for kind in ('job', 'current', 'all') + (('bgjob',) if shape in ('straight', 'timed') else ()):
             tasks.append((shape, kind, 'inject', budget, rng.randrange(2 ** 20), stride))
             tasks.append((shape, kind, 'random', walks, rng.randrange(2 ** 30), 0))
     import multiprocessing
@@ -298,7 +313,7 @@ def run(report, replay=None):
                 rid = len(batch)
                 if not any(e['e'] == 'stop_call' for e in events):
                     continue              # the requester never got its turn (random walk): nothing to judge
-                batch.append({'id': rid, 'ev': events, 'nruns': m['nruns'], 'full': m['full'], 'names': m['names'],
+                batch.append({'id': rid, 'ev': events, 'nruns': m['nruns'], 'full': m['full'], 'names': m['names'], 'bg': m['bg'],
                               'max_steps': MAX_STEPS_AFTER_STOP, 'max_us': MAX_US_AFTER_STOP})
                 meta[rid] = (shape, kind, how, schedule)
     for idx, rec in enumerate(batch):
